@@ -404,6 +404,22 @@ def emit_then_clear(ctx: Ctx):
                  'write() does not append every non-whitespace fragment to the buffer', construct='write-appends')
 
 
+def _is_stock_queue_handler(ctx: Ctx, fn: FuncInfo, f: ast.AST) -> bool:
+    """logging.handlers.QueueHandler itself, or a package subclass that leaves record preparation and delivery alone
+    (`prepare` is what makes a record with exc_info / arbitrary args picklable; `emit` / `enqueue` / `handle` are the path
+    onto the queue): an override of one of them decides which records survive the trip to the main process."""
+    d = dotted(f) or ''
+    r = ctx.P.resolve_dotted(fn.module, d) if d else None
+    if r in ('logging.handlers.QueueHandler',):
+        return True
+    c = ctx.P.classes.get(r or '')
+    if c is None:
+        return d.endswith('QueueHandler') and r is None
+    if not any(b.endswith('QueueHandler') for b in c.bases):
+        return False
+    return not (set(c.methods) & {'prepare', 'emit', 'enqueue', 'handle', 'filter', 'format'})
+
+
 @rule('C19.WORKER-LOG-SETUP', ['C19'])
 def worker_log_setup(ctx: Ctx):
     """In the worker: inherited handlers are dropped, exactly one QueueHandler(log_queue) is added, both
@@ -420,7 +436,7 @@ def worker_log_setup(ctx: Ctx):
     ok = len(resets) == 1 and len(adds) == 1
     if ok:
         a = adds[0].args[0] if adds[0].args else None
-        ok = isinstance(a, ast.Call) and (dotted(a.func) or '').endswith('QueueHandler') and a.args and isinstance(a.args[0], ast.Name) \
+        ok = isinstance(a, ast.Call) and _is_stock_queue_handler(ctx, we, a.func) and a.args and isinstance(a.args[0], ast.Name) \
             and a.args[0].id == 'log_queue' and g.dominates(g.primary(resets[0]), g.primary(adds[0])) and g.dominates(g.primary(adds[0]), rn) \
             and roles.enclosing_loop_of(we.node, adds[0]) is None
     yield ctx.ob('C19.WORKER-LOG-SETUP', ok, we, adds[0] if adds else we.node, 'logger.handlers reset, then exactly one QueueHandler(log_queue)',
